@@ -305,12 +305,13 @@ def orbit_cardinality(orbit: list, modes: int) -> Union[int, float]:
     sample = orbit + [0] * (modes - len(orbit))
     counts = list(Counter(sample).values())
 
-    # factorials of numbers larger than 170 do not fit into a int,
-    # hence return float using the qarg `exact=True`
-    if modes > 170:
-        return factorial(modes, exact=True) / np.prod(factorial(counts, exact=True))
+    # exact integer arithmetic: the multinomial coefficient exceeds the 53-bit mantissa of a
+    # float already for moderate photon and mode numbers
+    cardinality = factorial(modes, exact=True)
+    for count in counts:
+        cardinality //= factorial(count, exact=True)
 
-    return int(factorial(modes, exact=False) / np.prod(factorial(counts, exact=False)))
+    return cardinality
 
 
 def event_cardinality(photon_number: int, max_count_per_mode: int, modes: int) -> int:
